@@ -87,6 +87,27 @@ pub fn to_lean_string_types(sink: &mut Sink) -> u64 {
         std::net::Ipv4Addr::new(192, 168, 0, 1), std::time::Duration::from_millis(1500).as_secs_f64(), format_args!("{}-{:>4}", 1, "x"),
         std::fmt::Error, core::char::from_u32(0x1F4BF).unwrap(),
     );
+    // a `Display` whose output depends on how often it has been asked (a one-shot joiner, a counter): `to_string()` calls
+    // `fmt` exactly once, so must `to_lean_string()` / `try_to_lean_string()`
+    {
+        struct Counting(std::cell::Cell<u32>, &'static str);
+        impl std::fmt::Display for Counting {
+            fn fmt(&self, f: &mut std::fmt::Formatter<'_>) -> std::fmt::Result {
+                self.0.set(self.0.get() + 1);
+                write!(f, "call {} of {}", self.0.get(), self.1)
+            }
+        }
+        for pad in ["x", "a text that makes the result longer than sixteen bytes"] {
+            evals += 2;
+            let (c1, c2, c3) = (Counting(Default::default(), pad), Counting(Default::default(), pad), Counting(Default::default(), pad));
+            let want = c1.to_string();
+            let a = c2.to_lean_string();
+            let b = c3.try_to_lean_string().map(|s| s.as_str().to_string()).unwrap_or_default();
+            if a.as_str() != want || b != want || c2.0.get() != 1 || c3.0.get() != 1 {
+                sink.fail(&["C15"], format!("a Display that counts its calls: to_lean_string {:?} after {} call(s), try_to_lean_string {:?} after {} call(s), to_string {:?} after 1", a.as_str(), c2.0.get(), b, c3.0.get(), want));
+            }
+        }
+    }
     // floats are formatted by ryu (shortest digits, exponent form for extremes): the property asks for the value back,
     // not for `to_string()`'s digits -- both entry points must agree and parse back to the same bits
     for v in [0.0f64, -0.0, 1.5, f64::NAN, f64::INFINITY, f64::NEG_INFINITY, f64::MIN_POSITIVE, f64::MAX, 1e21, 0.1f32 as f64, 2.5] {
@@ -386,6 +407,59 @@ pub fn serde(rng: &mut Rng, n: usize, sink: &mut Sink) {
             }
         }
         let _ = t.as_str().into_deserializer() as StrDeserializer<VErr>;
+    }
+    // a serializer that is not JSON and records which method it was handed and with what: LeanString and String must
+    // make the same call (a format without self-description tells `serialize_str` from `collect_str`/bytes/newtype)
+    {
+        use serde::ser::{Impossible, Serializer};
+        #[derive(Clone, Copy)]
+        struct Rec(bool);
+        macro_rules! rec_prim { ($($m:ident: $t:ty),*) => {$( fn $m(self, v: $t) -> Result<String, VErr> { Ok(format!("{}:{:?}", stringify!($m), v)) } )*}; }
+        impl Serializer for Rec {
+            fn is_human_readable(&self) -> bool { self.0 }
+            type Ok = String;
+            type Error = VErr;
+            type SerializeSeq = Impossible<String, VErr>;
+            type SerializeTuple = Impossible<String, VErr>;
+            type SerializeTupleStruct = Impossible<String, VErr>;
+            type SerializeTupleVariant = Impossible<String, VErr>;
+            type SerializeMap = Impossible<String, VErr>;
+            type SerializeStruct = Impossible<String, VErr>;
+            type SerializeStructVariant = Impossible<String, VErr>;
+            rec_prim!(serialize_bool: bool, serialize_i8: i8, serialize_i16: i16, serialize_i32: i32, serialize_i64: i64, serialize_u8: u8,
+                serialize_u16: u16, serialize_u32: u32, serialize_u64: u64, serialize_f32: f32, serialize_f64: f64, serialize_char: char,
+                serialize_str: &str, serialize_bytes: &[u8]);
+            fn serialize_none(self) -> Result<String, VErr> { Ok("none".into()) }
+            fn serialize_some<T: ?Sized + serde::Serialize>(self, v: &T) -> Result<String, VErr> { Ok(format!("some({})", v.serialize(self)?)) }
+            fn serialize_unit(self) -> Result<String, VErr> { Ok("unit".into()) }
+            fn serialize_unit_struct(self, n: &'static str) -> Result<String, VErr> { Ok(format!("unit_struct {n}")) }
+            fn serialize_unit_variant(self, n: &'static str, i: u32, v: &'static str) -> Result<String, VErr> { Ok(format!("unit_variant {n} {i} {v}")) }
+            fn serialize_newtype_struct<T: ?Sized + serde::Serialize>(self, n: &'static str, v: &T) -> Result<String, VErr> { Ok(format!("newtype {n}({})", v.serialize(self)?)) }
+            fn serialize_newtype_variant<T: ?Sized + serde::Serialize>(self, n: &'static str, i: u32, vn: &'static str, v: &T) -> Result<String, VErr> { Ok(format!("newtype_variant {n} {i} {vn}({})", v.serialize(self)?)) }
+            fn serialize_seq(self, _: Option<usize>) -> Result<Self::SerializeSeq, VErr> { Err(serde::ser::Error::custom("seq")) }
+            fn serialize_tuple(self, _: usize) -> Result<Self::SerializeTuple, VErr> { Err(serde::ser::Error::custom("tuple")) }
+            fn serialize_tuple_struct(self, _: &'static str, _: usize) -> Result<Self::SerializeTupleStruct, VErr> { Err(serde::ser::Error::custom("tuple_struct")) }
+            fn serialize_tuple_variant(self, _: &'static str, _: u32, _: &'static str, _: usize) -> Result<Self::SerializeTupleVariant, VErr> { Err(serde::ser::Error::custom("tuple_variant")) }
+            fn serialize_map(self, _: Option<usize>) -> Result<Self::SerializeMap, VErr> { Err(serde::ser::Error::custom("map")) }
+            fn serialize_struct(self, _: &'static str, _: usize) -> Result<Self::SerializeStruct, VErr> { Err(serde::ser::Error::custom("struct")) }
+            fn serialize_struct_variant(self, _: &'static str, _: u32, _: &'static str, _: usize) -> Result<Self::SerializeStructVariant, VErr> { Err(serde::ser::Error::custom("struct_variant")) }
+            fn collect_str<T: ?Sized + std::fmt::Display>(self, v: &T) -> Result<String, VErr> { Ok(format!("collect_str:{v}")) }
+        }
+        let mut keep = vec![];
+        for t in texts.iter().take(80) {
+            for (name, ls) in representations(t, &mut keep) {
+                for human_readable in [true, false] {
+                    evals += 1;
+                    let a = serde::Serialize::serialize(&ls, Rec(human_readable)).map_err(|e| e.to_string());
+                    let b = serde::Serialize::serialize(t, Rec(human_readable)).map_err(|e| e.to_string());
+                    let (wa, wb) = (serde::Serialize::serialize(&Some(ls.clone()), Rec(human_readable)).map_err(|e| e.to_string()),
+                        serde::Serialize::serialize(&Some(t.clone()), Rec(human_readable)).map_err(|e| e.to_string()));
+                    if a != b || wa != wb {
+                        sink.fail(&["C19"], format!("serialize {:?} stored as {name} into a recording serializer (human_readable = {human_readable}): {:?}, String makes the call {:?}", t, a, b));
+                    }
+                }
+            }
+        }
     }
     // inputs of the wrong type: the error (it quotes the visitor's `expecting`) must be the one `String` reports
     for bad in ["123", "true", "null", "[\"a\"]", "{\"a\":1}", "1.5", "\"unterminated"] {
